@@ -42,9 +42,16 @@ pub enum Prim {
     ChecksumUnsorted,
     /// an entry appended to whatever checksum is there (or a fresh one): repeats `a` if present
     ChecksumAppendA,
+    /// typed insert of a well-known key with an underscore (a sibling key with a letter at that place
+    /// may be present: `filename` next to `file_name`)
+    TypedFileName,
+    /// entry("Repository_URL").or_insert("d")
+    EntryRepoOrInsert,
+    /// remove("FILE_NAME")
+    RemoveFileName,
 }
 
-pub const PRIMS: [Prim; 22] = [
+pub const PRIMS: [Prim; 25] = [
     Prim::Nop,
     Prim::ClearName,
     Prim::SetName,
@@ -67,6 +74,9 @@ pub const PRIMS: [Prim; 22] = [
     Prim::ChecksumOddHex,
     Prim::ChecksumUnsorted,
     Prim::ChecksumAppendA,
+    Prim::TypedFileName,
+    Prim::EntryRepoOrInsert,
+    Prim::RemoveFileName,
 ];
 
 #[derive(Clone, Debug, Default, PartialEq, Eq, Hash, PartialOrd, Ord)]
@@ -173,6 +183,15 @@ fn apply_real(p: Prim, parts: &mut PurlParts) {
             let new = if old.is_empty() { "a:22".to_owned() } else { format!("{old},a:22") };
             let _ = parts.qualifiers.insert("checksum", new.as_str());
         },
+        Prim::TypedFileName => parts.qualifiers.insert_typed(purl::qualifiers::well_known::FileName::from("new.tgz")),
+        Prim::EntryRepoOrInsert => {
+            if let Ok(e) = parts.qualifiers.entry("Repository_URL") {
+                e.or_insert("d");
+            }
+        },
+        Prim::RemoveFileName => {
+            parts.qualifiers.remove("FILE_NAME");
+        },
     }
 }
 
@@ -240,6 +259,15 @@ fn apply_ref(p: Prim, r: &mut RefParts) {
             let old = r.quals.get("checksum").cloned().unwrap_or_default();
             let new = if old.is_empty() { "a:22".to_owned() } else { format!("{old},a:22") };
             r.quals.insert("checksum".into(), new);
+        },
+        Prim::TypedFileName => {
+            r.quals.insert("file_name".into(), "new.tgz".into());
+        },
+        Prim::EntryRepoOrInsert => {
+            r.quals.entry("repository_url".into()).or_insert_with(|| "d".into());
+        },
+        Prim::RemoveFileName => {
+            r.quals.remove("file_name");
         },
     }
 }
@@ -591,7 +619,7 @@ pub fn explore(tier: Tier) -> (Acc, Value, u64, u64) {
             inputs.push(s);
         }
     }
-    for extra in ["pkg:%74/n", "pkg:%54/n@1", "pkg:t%2Ex/n", "pkg:t%2ex/ns/n?k=v", "pkg:%21/n", "pkg:t/n?checksum=B:FF,a:0A", "pkg:t/n?checksum=zz", "pkg:t/n?checksum=a:00", "pkg:t/n?checksum=b:00&k=v", "pkg:t/n?k=v&K2=w#a/../b", "pkg:t/ns/n@1?k=&l=x", "pkg:t/%80", "pkg:t/n?k", "pkg:!/n", "pkg:t", "t/n", "pkg:t/n@%zz", "pkg:t/a%2Fb/n"] {
+    for extra in ["pkg:%74/n", "pkg:%54/n@1", "pkg:t%2Ex/n", "pkg:t%2ex/ns/n?k=v", "pkg:%21/n", "pkg:t/n?checksum=B:FF,a:0A", "pkg:t/n?checksum=zz", "pkg:t/n?checksum=a:00", "pkg:t/n?checksum=b:00&k=v", "pkg:t/n?filename=a&file_name=b", "pkg:t/n?repositoryid=7&repository_url=u&repo=x", "pkg:t/n?file_name=b&filename=a&file=c&files=d", "pkg:t/n?k=v&K2=w#a/../b", "pkg:t/ns/n@1?k=&l=x", "pkg:t/%80", "pkg:t/n?k", "pkg:!/n", "pkg:t", "t/n", "pkg:t/n@%zz", "pkg:t/a%2Fb/n"] {
         inputs.push(extra.to_owned());
     }
     let binputs = builder_inputs();
